@@ -451,7 +451,7 @@ class Assembler:
             'spec_lines': cfg['spec'].count('\n'), 'loop_clauses': len(cfg['loops']), 'hints': len(cfg['ats'])})
         for r in rules:
             self.manifest['rules'].append({'rule': r, 'file': rel, 'item': qual})
-        return pre + text + '\n'
+        return '//#begin-fn %s :: %s\n' % (rel, qual) + pre + text + '\n//#end-fn\n'
 
     def _apply(self, src, lo, hi, edits, all_toks):
         # doc comment removal as edits
